@@ -43,7 +43,11 @@ func main() {
 			"JitterTicker: case = one ticker life (NewJitterTicker(d, jitter) from the grid d in {100us..5ms} x jitter in {0, 1ns, d/2, d-1ns}; 0-2 Resets to other grid points; " +
 			"one Stop; each action fired at a seeded offset around the expected firing time, or while the timer callback is held at the pause point ticker.fire), 64 lives at a time in the stress group; " +
 			"evaluation = one New/Reset no-panic check, one consecutive tick pair, or one post-Stop watch / post-Stop tick judged; " +
-			"non-trivial = the life produced >= 1 judged tick pair or a completed post-Stop watch; distinct = by (d, jitter, phases, offsets rounded to 50us).")
+			"non-trivial = the life produced >= 1 judged tick pair or a completed post-Stop watch; distinct = by (d, jitter, phases, offsets rounded to 50us). " +
+			"Group pool: round = one SleepContext whose context ends at d + delta (delta swept over -30..+30 us; cancel by time.AfterFunc or a hidden WithTimeout) followed on the same goroutine by 2-3 plain sleeps, " +
+			"on up to 12 goroutines next to 3 busy ones; evaluation = one call judged (nil => elapsed >= d; the plain sleeps must return nil). " +
+			"Group lag: trial = one ticker (d 100-300 us, jitter 0) that nobody reads, stopped at its second firing (aimed by the pause point ticker.fire plus 0-5 us, or by time), channel emptied right after Stop, " +
+			"looked at again >= 20 ms later; evaluation = one such look.")
 		r.Assume("elapsed time is judged only as a lower bound (nil from SleepContext => elapsed >= d; tick timestamps >= d - jitter apart); no result is ever judged for arriving late")
 		r.Assume("scenario classes stay away from deadline ~ d: 'exactly when the deadline is closer than d' is decided only for deadline <= d/8 (must be DeadlineTooSoonError) and deadline >= 2000 d (must not be); in the latter class an error is judged only if the whole scenario, from before the context was made, took less than deadline - d")
 		r.Assume("an already-cancelled context with 0 < d <= 1 ms: nil after >= d is recorded, not judged (the timer may win the select when the goroutine is descheduled for >= d); with d >= 1 min the result must be ctx.Err()")
@@ -52,14 +56,19 @@ func main() {
 		r.Assume("a deadline-hiding context wrapper (Deadline() reports none, Done/Err/Value come from a WithTimeoutCause parent) is a legitimate context: it is the only way to let a sleep be ended by an expiry without generating deadline ~ d")
 		r.Assume("tick pairs that may straddle a Reset are held to the smaller of the d - jitter bounds of every regime that can have been in force between the two timestamps")
 		r.Assume("'no tick is sent after Stop returns' is refuted only by a tick whose own timestamp (taken inside the callback before the send) is later than a stamp taken after Stop returned; a tick that was already in the 1-slot channel is legitimate")
+		r.Assume("drain-then-silence: when Stop returns the 1-slot channel holds at most one tick; after it has been taken out, any further tick received from that ticker was sent after Stop returned, whatever timestamp it carries (also: two or more ticks received after Stop returned)")
+		r.Assume("a SleepContext call whose context ends within 30 us of d may return nil (after >= d) or ctx.Err(): that call is not judged beyond the lower bound; the plain sleeps that follow it are")
 		r.Assume("that ticks keep arriving at all (liveness) is not part of the statement: a phase that sees no tick for 5 s is counted, not judged")
 
-		regress(r)
-		sleepCases(r)
-		gateCases(r)
-		stressCases(r)
-		tickerExtremes(r)
-		outside(r)
+		for _, g := range []struct {
+			name string
+			run  func(*vkit.Report)
+		}{{"regress", regress}, {"sleep+extreme", sleepCases}, {"gate", gateCases}, {"stress", stressCases}, {"ticker-extreme", tickerExtremes},
+			{"pool", poolCases}, {"lag", lagCases}, {"outside", outside}} {
+			t := time.Now()
+			g.run(r)
+			r.Max("wall ms per group (slowest variant)", g.name, int(time.Since(t)/ms))
+		}
 
 		for cl := 0; cl < nClasses; cl++ {
 			r.Floor("SleepContext calls judged, class "+className[cl], r.Table("sleep class (judged)", className[cl]), 5)
@@ -68,6 +77,8 @@ func main() {
 		r.Floor("SleepContext on contexts ended with an application cause different from ctx.Err()", r.Table("sleep", "contexts that ended with an application cause different from ctx.Err()"), 40)
 		r.Floor("SleepContext with an expired deadline and d >= 1h", r.Table("sleep", "expired deadline, d >= 1h: DeadlineTooSoonError demanded"), 48)
 		r.Floor("SleepContext with d >= 1<<62 ns", r.Table("sleep", "calls with d >= 1<<62 ns"), 60)
+		r.Floor("pool rounds (SleepContext ended at d+-30us, then plain sleeps)", r.Table("pool", "rounds"), 2000)
+		r.Floor("lagging-receiver tickers stopped at the second firing and looked at again", r.Table("lag", "stopped tickers looked at again >= 20 ms after the drain"), 5000)
 		r.Floor("JitterTicker lives with d >= MaxInt64/4", r.Table("ticker", "lives with d >= MaxInt64/4"), 8)
 		r.Floor("NewJitterTicker / Reset with jitter == 0 (no panic)", r.Table("ticker", "New/Reset with jitter == 0"), 20)
 		r.Floor("consecutive tick pairs judged", r.Table("ticks", "pairs judged"), 2000)
@@ -306,7 +317,7 @@ func expiredDeadline(kind int) time.Time {
 var expiredDs = []time.Duration{1, 1 * ms, 4 * time.Second, time.Hour, 1 << 62, maxD - 1, maxD}
 
 func sleepCases(r *vkit.Report) {
-	n := r.Scale(700, 8000)
+	n := r.Scale(700, 6000)
 	r.Cases("sleep", n, 1, func(c *vkit.Case) {
 		class := c.Rand.Weighted([]int{5, 3, 3, 5, 3, 3, 2, 4, 3})
 		sleepCase(c, class, nil)
